@@ -29,13 +29,13 @@ ALL_KINDS = CALL_KINDS | REG_KINDS | EVENT_KINDS | CHAN_KINDS | LST_KINDS
 # per property: fuzz profiles (profile, tame?, fault percent), alphabet for the non-triviality rule,
 # exhaustive configurations of Broker.tla (added when the module exists)
 PROPS = {
-    "C02": dict(profiles=[("calls", False, 4), ("calls", True, 8), ("mixed", False, 4)], alphabet=CALL_KINDS, mc=["MC_Calls", "MC_CallsP"]),
+    "C02": dict(profiles=[("calls", False, 4), ("calls", True, 8), ("mixed", False, 4)], alphabet=CALL_KINDS, mc=["MC_Calls", "MC_CallsP", "MC_CallsP2"]),
     "C03": dict(profiles=[("registry", False, 4), ("registry", True, 8), ("mixed", False, 4)], alphabet=REG_KINDS, mc=["MC_Registry"]),
     "C04": dict(profiles=[("events", False, 4), ("events", True, 8), ("mixed", False, 4)], alphabet=EVENT_KINDS, mc=["MC_Events"]),
     "C05": dict(profiles=[("channels", False, 4), ("channels", True, 8), ("mixed", False, 4)], alphabet=CHAN_KINDS, mc=["MC_Channels"]),
     "C09": dict(profiles=[("mixed", True, 14), ("channels", True, 14), ("calls", True, 14), ("intro", False, 10), ("mixed", False, 10)], alphabet=ALL_KINDS, mc=["MC_Lifecycle"]),
     "C10": dict(profiles=[("listeners", False, 4), ("listeners", True, 8), ("mixed", False, 4)], alphabet=LST_KINDS, mc=["MC_Listeners", "MC_ListenersF"]),
-    "C11": dict(profiles=[("abuse", False, 5), ("mixed", False, 6), ("calls", False, 5), ("intro", False, 5)], alphabet=ALL_KINDS, mc=["MC_Abuse", "MC_Intro"]),
+    "C11": dict(profiles=[("abuse", False, 5), ("mixed", False, 6), ("calls", False, 5), ("intro", False, 5), ("channels", False, 5)], alphabet=ALL_KINDS, mc=["MC_Abuse", "MC_Intro"]),
     "C12": dict(profiles=[("mixed", True, 3), ("calls", True, 3), ("events", True, 3)], alphabet=ALL_KINDS, mc=["MC_Versions_14_20", "MC_Versions_20_14", "MC_Versions_15_19", "MC_Versions_17_18"]),
 }
 
@@ -108,8 +108,8 @@ def fuzz_and_validate(prop, tier, seed, verdict, cov):
 
 
 # specification -> implementation: behaviours enumerated by TLC from MC_Replay.tla, replayed on the real broker
-REPLAY = {"C02": ["Calls", "CallsP"], "C03": ["Registry"], "C04": ["Events"], "C05": ["Channels"], "C09": ["Lifecycle", "Versions"],
-          "C10": ["Listeners", "ListenersF"], "C11": ["Abuse", "CallsP", "Intro"], "C12": ["Versions", "CallsP_old"]}
+REPLAY = {"C02": ["Calls", "CallsP", "CallsP2"], "C03": ["Registry"], "C04": ["Events"], "C05": ["Channels"], "C09": ["Lifecycle", "Versions"],
+          "C10": ["Listeners", "ListenersF"], "C11": ["Abuse", "CallsP", "Intro", "Channels"], "C12": ["Versions", "CallsP_old"]}
 REPLAY_TIERS = {
     "quick": dict(exhaustive_cap=1500, sim=(250, 150), shards=4, workers=8, timeout=900),
     "thorough": dict(exhaustive_cap=24000, sim=(3000, 200), shards=12, workers=12, timeout=3000),
